@@ -293,9 +293,21 @@ func (b *BloomSearchEngine) Stop(ctx context.Context) error {
 	// expires, in-flight flush store calls, done-channel delivery, and flush
 	// enqueueing all abort, which also unwinds any IngestRows caller holding
 	// the read lock on a full ingest buffer — so Stop can always honor its
-	// deadline. The AfterFunc is dropped on a graceful finish, leaving
+	// deadline. The watcher is dropped on a graceful finish, leaving
 	// flushCtx live.
-	stopAfter := context.AfterFunc(ctx, b.flushCancel)
+	// The abort is driven by a goroutine watching ctx.Done rather than by
+	// context.AfterFunc: a Context implementation is free to run AfterFunc
+	// callbacks late, and a late abort would let Stop overrun its deadline
+	// (it waits for the state lock below) and let queued flushes start store
+	// work after Stop has already returned the deadline error.
+	stopFinished := make(chan struct{})
+	go func() {
+		select {
+		case <-ctx.Done():
+			b.flushCancel()
+		case <-stopFinished:
+		}
+	}()
 
 	// IngestRows and Flush accept work as soon as the engine exists, started or
 	// not. Make sure the workers are running before waiting for the state lock:
@@ -320,10 +332,13 @@ func (b *BloomSearchEngine) Stop(ctx context.Context) error {
 	select {
 	case <-done:
 		// Workers finished gracefully
-		stopAfter()
+		close(stopFinished)
 		return nil
 	case <-ctx.Done():
-		// Timeout occurred
+		// Timeout occurred. Abort flush work before returning, so nothing the
+		// engine still holds starts new store work once the caller has been
+		// told the shutdown timed out.
+		b.flushCancel()
 		return fmt.Errorf("shutdown timeout exceeded: %w", ctx.Err())
 	}
 }
